@@ -5,9 +5,19 @@
 (* FIXED = FALSE is the algorithm as pinned (no EOM when the message length is an exact multiple  *)
 (* of the body size); FIXED = TRUE adds the repair (an empty EOM packet terminates a message whose *)
 (* packets were all sent full).                                                                   *)
+(* ABORTS = TRUE adds calls made with a cancelled context (sendPackets checks the contexts before *)
+(* every queued packet and returns; its deferred DiscardUntilCurrentPosition still runs):          *)
+(*   QueueAbort  QueuePackage encodes into queueTx, writes nothing, fails; the unsent full packets *)
+(*               in front of the write position are discarded, so the message is broken (the       *)
+(*               caller has the error) and is not judged when it is flushed later;                 *)
+(*   FlushAbort  SendRemainingPackets writes nothing and fails; RESETONERR = TRUE is the code      *)
+(*               (defer Reset()), FALSE is the variant that resets only after a successful flush   *)
+(*               and leaves the partly filled packet for the next message;                          *)
+(*               EOMCTX = TRUE is the repaired code that also checks the contexts before the       *)
+(*               terminating empty packet, FALSE writes it with a cancelled context (C13).         *)
 EXTENDS PQOps, TLC, Json
 
-CONSTANTS Bodies, MaxLen, MaxMsgs, MaxSteps, FIXED, GEN
+CONSTANTS Bodies, MaxLen, MaxMsgs, MaxSteps, FIXED, GEN, ABORTS, RESETONERR, EOMCTX
 
 VARIABLES q,        \* queueTx
           body,     \* packet body size in force (Conn.PacketBodySize())
@@ -15,14 +25,17 @@ VARIABLES q,        \* queueTx
           wire,     \* packets of the current message seen on the transport: [n, len, eom, bs]
           queued,   \* bytes queued in the current message
           done,     \* completed messages: [total, wire]
+          broken,   \* a call of the current message failed: the message is not judged
+          abandoned,\* the previous message was given up by a failed flush (txOpen may be stale)
+          cwrote,   \* packets written by calls that had a cancelled context
           steps, hist
-vars == <<q, body, txOpen, wire, queued, done, steps, hist>>
+vars == <<q, body, txOpen, wire, queued, done, broken, abandoned, cwrote, steps, hist>>
 
 H(e) == hist' = IF GEN THEN Append(hist, e) ELSE hist
 Step == steps < MaxSteps /\ steps' = steps + 1
 
 Init == /\ q = PQ_Empty /\ body \in Bodies /\ txOpen = FALSE /\ wire = <<>> /\ queued = 0
-        /\ done = <<>> /\ steps = 0 /\ hist = <<>>
+        /\ done = <<>> /\ steps = 0 /\ hist = <<>> /\ broken = FALSE /\ abandoned = FALSE /\ cwrote = 0
 
 \* sendPacket: EOM iff the data portion is not exactly one body
 Pkt(data) == [n |-> Len(data), len |-> 8 + Len(data), eom |-> Len(data) # body, bs |-> data]
@@ -47,8 +60,8 @@ Queue(n) ==
           /\ wire' = wire \o ps
           /\ txOpen' = OpenAfter(ps, txOpen)
           /\ queued' = queued + n
-          /\ H([op |-> "Queue", n |-> n, body |-> body, npk |-> Len(ps)])
-    /\ UNCHANGED <<body, done>>
+          /\ H([op |-> "Queue", n |-> n, body |-> body, npk |-> Len(ps), ctx |-> ""])
+    /\ UNCHANGED <<body, done, broken, abandoned, cwrote>>
 
 Flush ==
     /\ Step /\ Len(done) < MaxMsgs
@@ -56,19 +69,46 @@ Flush ==
            open1 == OpenAfter(ps, txOpen)
            ps2 == IF FIXED /\ open1 THEN Append(ps, [n |-> 0, len |-> 8, eom |-> TRUE, bs |-> <<>>]) ELSE ps
        IN /\ wire' = <<>>
-          /\ done' = Append(done, [total |-> queued, body |-> body, wire |-> wire \o ps2])
+          /\ done' = IF broken THEN done ELSE Append(done, [total |-> queued, body |-> body, wire |-> wire \o ps2])
           /\ txOpen' = IF FIXED THEN FALSE ELSE open1
-          /\ H([op |-> "Flush", n |-> 0, body |-> body, npk |-> Len(ps2)])
+          /\ H([op |-> "Flush", n |-> 0, body |-> body, npk |-> Len(ps2), ctx |-> ""])
     /\ q' = PQ_Empty /\ queued' = 0              \* SendRemainingPackets: defer Reset()
+    /\ broken' = FALSE /\ abandoned' = FALSE
+    /\ UNCHANGED <<body, cwrote>>
+
+\* QueuePackage with a cancelled context: the package is encoded into queueTx, the first loop
+\* iteration of sendPackets returns the context's error, the deferred discard drops every packet in
+\* front of the write position although none was sent
+QueueAbort(n) ==
+    /\ ABORTS /\ Step /\ n \in 1..MaxLen /\ Len(done) < MaxMsgs
+    /\ LET bs == [i \in 1..n |-> queued + i]
+           q1 == PQ_Write(q, bs, body)
+       IN q' = PQ_Discard(q1)
+    /\ queued' = queued + n /\ broken' = TRUE
+    /\ H([op |-> "Queue", n |-> n, body |-> body, npk |-> 0, ctx |-> "cancelled"])
+    /\ UNCHANGED <<body, txOpen, wire, done, abandoned, cwrote>>
+
+\* SendRemainingPackets with a cancelled context
+FlushAbort ==
+    /\ ABORTS /\ Step /\ Len(done) < MaxMsgs
+    /\ LET err == Len(q.pk) > 0 \/ (FIXED /\ txOpen /\ EOMCTX)   \* a context check was reached
+           ps == IF ~err /\ FIXED /\ txOpen THEN <<[n |-> 0, len |-> 8, eom |-> TRUE, bs |-> <<>>]>> ELSE <<>>
+       IN /\ cwrote' = cwrote + Len(ps)
+          /\ done' = IF err \/ broken THEN done ELSE Append(done, [total |-> queued, body |-> body, wire |-> wire \o ps])
+          /\ txOpen' = IF ps # <<>> THEN FALSE ELSE txOpen
+          /\ abandoned' = err
+          /\ q' = IF err /\ ~RESETONERR THEN PQ_Discard(q) ELSE PQ_Empty
+          /\ H([op |-> "Flush", n |-> 0, body |-> body, npk |-> Len(ps), ctx |-> "cancelled"])
+    /\ wire' = <<>> /\ queued' = 0 /\ broken' = FALSE
     /\ UNCHANGED body
 
 \* the server renegotiates the packet size between two messages
 SizeChange(b) ==
     /\ Step /\ queued = 0 /\ b \in Bodies /\ b # body
-    /\ body' = b /\ H([op |-> "Size", n |-> 0, body |-> b, npk |-> 0])
-    /\ UNCHANGED <<q, txOpen, wire, queued, done>>
+    /\ body' = b /\ H([op |-> "Size", n |-> 0, body |-> b, npk |-> 0, ctx |-> ""])
+    /\ UNCHANGED <<q, txOpen, wire, queued, done, broken, abandoned, cwrote>>
 
-Next == (\E n \in 1..MaxLen : Queue(n)) \/ Flush \/ (\E b \in Bodies : SizeChange(b))
+Next == (\E n \in 1..MaxLen : Queue(n) \/ QueueAbort(n)) \/ Flush \/ FlushAbort \/ (\E b \in Bodies : SizeChange(b))
 Spec == Init /\ [][Next]_vars
 
 ---------------------------------------------------------------------------
@@ -83,10 +123,12 @@ MsgOK(m) ==
     /\ \A i \in 1..Len(w) : w[i].n <= m.body /\ (i < Len(w) => w[i].n = m.body)   \* C01_AllButLastFull
 C01_Messages == \A k \in 1..Len(done) : MsgOK(done[k])
 C01_AllButLastFull == \A i \in 1..Len(wire) : ~wire[i].eom /\ wire[i].n = body    \* while the message is open
-C01_NothingLeftBehind == queued = 0 => (q = PQ_Empty /\ wire = <<>> /\ (FIXED => ~txOpen))
+C01_NothingLeftBehind == queued = 0 => (q = PQ_Empty /\ wire = <<>> /\ (FIXED /\ ~abandoned => ~txOpen))
+\* C13: a send with a cancelled context writes nothing
+C13_CancelledWritesNothing == cwrote = 0
 \* sizes never exceed the packet size in force (checked on open messages; completed ones by MsgOK + full)
 C01_SizeBound == \A i \in 1..Len(wire) : wire[i].len <= 8 + body
 
 GenPrint == (GEN /\ (steps = MaxSteps \/ Len(done) = MaxMsgs)) => PrintT(<<"SCN", ToJson(hist)>>)
-View == <<q, body, txOpen, wire, queued, done, steps>>
+View == <<q, body, txOpen, wire, queued, done, broken, abandoned, cwrote, steps>>
 =============================================================================
